@@ -7,7 +7,7 @@ from __future__ import annotations
 import json
 
 from harness.vlib.core import Ctx, ToolFailure
-from harness.c05.front import front
+from harness.c05.front import front, report, violation_nf
 
 ARG_T = ["int", "object"]            # an override may widen the argument type
 RET_T = ["object", "int", "bool"]    # … and narrow the return type
@@ -51,6 +51,8 @@ class Hierarchy:
                 val = {"int": str(100 * ci + mi), "object": str(100 * ci + mi), "bool": "True", "None": None}[ret]
                 if kind == "prop":
                     body += ["    @property", f"    def {m}(self) -> {ret}:", f"        return {val}"]
+                    if arg == "rw":
+                        body += [f"    @{m}.setter", f"    def {m}(self, v: {ret}) -> None:", "        pass"]
                 elif kind == "init":
                     body += [f"    def __init__(self{arg}) -> None:", "        pass"]
                 else:
@@ -92,6 +94,12 @@ def gen_hierarchy(rng, malformed: bool) -> Hierarchy:
         for m in rng.sample(names_pool, rng.randint(0, 4)):
             inherited = [h.by_name(a)["methods"][m] for a in mro[1:] if m in h.by_name(a)["methods"]]
             if m.startswith("p"):
+                if any(s[1] == "rw" for s in inherited) or (not inherited and m == "p0" and rng.random() < 0.4):
+                    # a read-write property keeps its type and stays read-write in every override
+                    methods[m] = ("prop", "rw", inherited[0][2] if inherited else "int")
+                    if malformed and rng.random() < 0.2:
+                        methods[m] = ("prop", "", "int")
+                    continue
                 lo = max([RET_T.index(s[2]) for s in inherited], default=0)
                 ret = RET_T[rng.randint(lo, 2)] if rng.random() < 0.6 else RET_T[lo]
                 if malformed and rng.random() < 0.2:
@@ -294,7 +302,7 @@ def run(ctx: Ctx, col=None) -> None:
         bad, nd = real_dispatch_check(real, src)
         ctx.count("vt_dispatch_triples_vs_cpython", nd)
         if bad:
-            ctx.report({"class": "vtable-dispatch-differs-from-mro-lookup"},
+            report(ctx, "vt", {"class": "vtable-dispatch-differs-from-mro-lookup"},
                        "compiled dispatch runs %s.%s for a %s behind a receiver typed %s; CPython runs %s.%s" % (
                            bad[0].get("compiled_runs"), bad[0]["method"], bad[0]["runtime_class"], bad[0]["static_type"],
                            bad[0].get("cpython_runs"), bad[0]["method"]),
@@ -320,11 +328,11 @@ def run(ctx: Ctx, col=None) -> None:
             ctx.count("disagreements_checked")
             if not bad:
                 k = next((i for i, (a, b) in enumerate(zip(mstrip, rclasses)) if a != b), 0)
-                ctx.violation("vtable correspondence broken: Model/VTable.lean ≠ mypyc/irbuild/vtable.py on class %s "
-                              "(real dispatch still agrees with CPython's MRO lookup on this hierarchy)" % real["cls_names"][k],
-                              {"broken": "correspondence Driver/C05 `V` vs compute_vtable", "kind": "vtable", "source": src,
-                               "class": real["cls_names"][k], "model": mstrip[k] if k < len(mstrip) else None,
-                               "impl": rclasses[k]}, found_input=False)
+                violation_nf(ctx, "vt-corr", "vtable correspondence broken: Model/VTable.lean ≠ mypyc/irbuild/vtable.py on class %s "
+                             "(real dispatch still agrees with CPython's MRO lookup on this hierarchy)" % real["cls_names"][k],
+                             {"broken": "correspondence Driver/C05 `V` vs compute_vtable", "kind": "vtable", "source": src,
+                              "class": real["cls_names"][k], "model": mstrip[k] if k < len(mstrip) else None,
+                              "impl": rclasses[k]})
         elif any(m.endswith("g=0") for m in mclasses):
             ndiff += 1
             ctx.violation("model predicts a missing glue method (KeyError) but the front half compiled the hierarchy",
@@ -336,12 +344,12 @@ def run(ctx: Ctx, col=None) -> None:
         ctx.case(("Vcrash", src))
         if kind == "KeyError" and predicted:
             ctx.count("vt_glue_gap_crashes_predicted")
-            ctx.report({"class": "compile-time-crash", "exception": "KeyError", "where": "specialize_parent_vtable",
+            report(ctx, "vt", {"class": "compile-time-crash", "exception": "KeyError", "where": "specialize_parent_vtable",
                         "shape": "method-from-base-vs-unrelated-trait-signature"},
                        "mypyc dies with KeyError in specialize_parent_vtable (glue method never generated); "
                        "the model predicts the missing key", {"kind": "vtable-crash", "source": src})
         else:
-            ctx.report({"class": "compile-time-crash", "exception": kind, "predicted_by_model": predicted},
+            report(ctx, "vt", {"class": "compile-time-crash", "exception": kind, "predicted_by_model": predicted},
                        f"mypyc's front half died with {kind}: {fr.crash!r}"[:300], {"kind": "vtable-crash", "source": src})
     ctx.coverage["vt_hierarchies_compiled"] = len(compiled)
     ctx.coverage["vt_disagreements"] = ndiff
@@ -361,6 +369,9 @@ def gen_model_line(h: Hierarchy) -> str:
             sid = nid * 100 + (ARG_T.index(arg) * 3 + RET_T.index(ret) if kind == "meth" else
                                RET_T.index(ret) if kind == "prop" else INIT_ARGS.index(arg))
             ms.append(f"{nid}/{sid}")
+            if kind == "prop" and arg == "rw":
+                sn = names.setdefault("__mypyc_setter__" + m, len(names))
+                ms.append(f"{sn}/{sn * 100 + RET_T.index(ret)}")
         toks.append("%s:%s:%s" % ("T" if c["trait"] else "C", ",".join(str(idx[k]) for k in c["mro"]), ",".join(ms)))
     return "V " + " ".join(toks)
 
